@@ -212,6 +212,28 @@ def reaching_defs(g, name: str, at) -> list:
     return out
 
 
+def state_attrs(ctx) -> dict:
+    """{'protocol': attr, 'version': attr}: the attributes of Gateway behind its public `protocol` and
+    `protocol_version` properties (the private names are the maintainers' to choose)."""
+    cached = getattr(ctx, "_state_attrs", None)
+    if cached is not None:
+        return cached
+    out = {"protocol": "_protocol", "version": "_protocol_version"}
+    gw = ctx.cls("aiomysensors.gateway.Gateway")
+    for key, prop in (("protocol", "protocol"), ("version", "protocol_version")):
+        for c in gw.repo_mro():
+            getters = [f for f in c.methods.get(prop, []) if not f.is_setter()]
+            if not getters:
+                continue
+            g = ctx.inl(getters[0])
+            rets = [n.value for n in ctx.own_nodes(g) if isinstance(n, ast.Return) and n.value is not None]
+            if len(rets) == 1 and isinstance(rets[0], ast.Attribute) and isinstance(rets[0].value, ast.Name) and rets[0].value.id == g.positional_params[0]:
+                out[key] = rets[0].attr
+            break
+    ctx._state_attrs = out
+    return out
+
+
 class OnlyRule:
     """Forward one rule of another property's rule function to this check under a new name; drop the rest."""
 
